@@ -28,6 +28,7 @@ SInit ==
     lastFork |-> 0,
     spawning |-> [t \in 0..63 |-> 0],   \* interest being registered by register_spawn in thread t
     term |-> {},              \* pids terminated, not yet reaped
+    zk1 |-> {},               \* those of them a closed popen request has signalled once since
     termOwed |-> {},          \* those of them that the library still owes a wait4(): terminated while
                               \* a wait interest was registered, and interests stayed registered since
     reapedPids |-> {},        \* pids whose termination was reaped (until reused)
@@ -103,7 +104,8 @@ Reap(m, e) ==
                                             THEN [@[o] EXCEPT !.pend = Append(@, e.st), !.dead = (e.dead = 1)]
                                             ELSE @[o]],
                       !.sinceReap = TRUE, !.reapNoInt = (tgt = {} /\ e.dead = 1)]
-  IN IF e.dead = 1 THEN [m1 EXCEPT !.term = @ \ {e.pid}, !.termOwed = @ \ {e.pid}, !.reapedPids = @ \cup {e.pid}] ELSE m1
+  IN IF e.dead = 1 THEN [m1 EXCEPT !.term = @ \ {e.pid}, !.termOwed = @ \ {e.pid}, !.reapedPids = @ \cup {e.pid},
+                                   !.zk1 = @ \ {e.pid}] ELSE m1
 
 WaitCb(m, e) ==
   LET o == e.o  r == m.wt[o] IN
@@ -122,7 +124,11 @@ KillStep(m, e) ==
               m2 == Chk(m1, TRUE, e.reaped = 0, "C19:kill-reaped")
               m3 == Chk(m2, TRUE, e.sig = (IF k <= 5 THEN SIGTERM ELSE SIGKILL), "C19:signal-seq")
               m4 == Chk(m3, k > 1, ~TsLt(e.now, TsAdd5(m.pop[o].lastKill)), "C19:signal-interval")
-          IN [m4 EXCEPT !.pop[o].kills = k, !.pop[o].lastKill = e.now]
+              (* the child has ended and is not reaped: one signal may cross the SIGCHLD handling, but by
+                 the next one (5 s later) the loop has been through its wait and must have reaped it *)
+              m5 == Chk(m4, e.pid \in m.term, e.pid \notin m.zk1, "C19:zombie")
+          IN [m5 EXCEPT !.pop[o].kills = k, !.pop[o].lastKill = e.now,
+                        !.zk1 = IF e.pid \in m.term THEN @ \cup {e.pid} ELSE @]
 
 -----------------------------------------------------------------------------
 SApi(m, e) ==
